@@ -226,8 +226,8 @@ prop(
 
 prop(
     "C10",
-    lean_modules=["BloomVerif.Lemmas.Actor", "BloomVerif.Props.C10"],
-    technique="Lean 4 proof about the actor step function (under-limits invariant over all message sequences, immediate flush of all buffered data when a limit is reached, time trigger, row conservation) + exact differential check of the files written",
+    lean_modules=["BloomVerif.Lemmas.Actor", "BloomVerif.Bridge.Trigger", "BloomVerif.Props.C10", "BloomVerif.Props.C10Gen"],
+    technique="Lean 4 proof about the actor step function (under-limits invariant over all message sequences, immediate flush of all buffered data when a limit is reached, time trigger, row conservation), with the flush decisions of processIngestRequest / ingestWorker regenerated from ingest.go and proved equal to the model's (Bridge/Trigger) + exact differential check of the files written",
     design_ref="DESIGN.md section 4 C10",
     text="Machine-checked for every message sequence: between messages all four limits hold strictly; a batch that makes buffered rows, bytes or a touched partition's rows/bytes reach its limit hands all buffered data and every waiter to the flush worker in that step; "
          "a tick at or after start + MaxBufferedTime flushes a non-empty buffer (which always has a start time); no row is lost or duplicated on the way. Partial: the 100 ms ticker allowance is wall clock, monitored with slack. "
